@@ -4,14 +4,24 @@
 // plus the shape clauses (scheme / authority omitted where provably possible,
 // domain-root mode path absolute, differing schemes => S unchanged) and the two
 // specific error codes.
-#include "gen.hpp"
-#include "parse_common.hpp"
+#include "hist.hpp"
 #include "pathenum.hpp"
 
 using namespace vf;
 
 static Fields gen(Tape &t) {
   Fields f;
+  // one case in six: S and B are objects a short history of library calls left behind (resolved, created, normalised,
+  // owned, read back); the clauses that are stated on texts use the texts these objects recompose to
+  if (t.below(6) == 5) {
+    int hi = t.weighted({4, 3, 2, 1}), hj = t.weighted({4, 3, 2, 1});
+    static const int odd[] = {2, -1, 256};
+    long long mode = t.chance(11, 12) ? (long long)t.below(2) : odd[t.below(3)];
+    int mm = (int)t.below(2), fault = t.chance(3, 4) ? 0 : t.range(1, 6);
+    ops_to_fields(f, g_history(t, SEG_ANY, false, 5));
+    f.seti("hi", hi); f.seti("hj", hj); f.seti("mode", mode); f.seti("mm", mm); f.seti("fault", fault);
+    return f;
+  }
   LongMode lm(t, true);
   if (lm.on()) f.seti("long", 1);
   GenUri S, B;
@@ -66,6 +76,8 @@ static std::string classify(const Snap &S, const Snap &B, int mode) {
 
 static std::string &intact_error() { static std::string e; return e; }
 
+template <class A> static Verdict judge(const Fields &f, typename A::Uri *Sp, typename A::Uri *Bp, bool *relativeBranch);
+
 template <class A> static Verdict check_type(const Fields &f, bool *relativeBranch) {
   using Ch = typename A::Ch;
   Parsed<A> ps, pb;
@@ -86,6 +98,12 @@ template <class A> static Verdict check_type(const Fields &f, bool *relativeBran
   typename A::Uri *Bp = shared == 2 ? &ps.uri : &pb.uri;  // alias: the same object as source and base
   if (f.geti("sown")) VF_REQUIRE(A::MakeOwner(&ps.uri) == 0, "%s: uriMakeOwner(S) failed", A::name());
   if (f.geti("bown")) VF_REQUIRE(A::MakeOwner(Bp) == 0, "%s: uriMakeOwner(B) failed", A::name());
+  return judge<A>(f, &ps.uri, Bp, relativeBranch);
+}
+
+template <class A> static Verdict judge(const Fields &f, typename A::Uri *Sp, typename A::Uri *Bp, bool *relativeBranch) {
+  using Ch = typename A::Ch;
+  struct { typename A::Uri &uri; } ps{*Sp};
   Snap S = snapshot<A>(ps.uri), B = snapshot<A>(*Bp);
   // whatever happens below, S and B are the caller's: after the reference (and the way back) have been released they
   // must still be what they were, and releasing them afterwards must be clean (ASan: no use after free, no double free)
@@ -194,7 +212,44 @@ template <class A> static Verdict check_type(const Fields &f, bool *relativeBran
   return Verdict::pass();
 }
 
+template <class A> static Verdict check_history(const Fields &f, std::string *desc, bool *nt) {
+  World<A> w;
+  for (auto &op : ops_from_fields(f)) w.exec(op);
+  std::vector<int> v = w.made_first();
+  if (v.size() < 2) return Verdict::discard();
+  size_t ri = (size_t)f.geti("hi") % v.size(), rj = (size_t)f.geti("hj") % v.size();
+  if (ri == rj && f.geti("hi") != f.geti("hj")) rj = (rj + 1) % v.size();
+  int i = v[ri], j = v[rj];
+  std::string st, bt;
+  if (!w.faithful_text(i, &st) || !w.faithful_text(j, &bt)) { stats().hit("history_operand_not_text_faithful"); return Verdict::pass(); }
+  Fields g = f;
+  g.set("src", st); g.set("base", bt);
+  *desc = "S(" + w.at(i).origin + ")=" + esc(st) + " B(" + w.at(j).origin + ")=" + esc(bt) + " mode=" + std::to_string(f.geti("mode"));
+  bool rel = false;
+  Verdict r = judge<A>(g, &w.at(i).uri, &w.at(j).uri, &rel);
+  if (r.kind == Verdict::FAIL) r.msg += " {operands out of a history: " + *desc + "}";
+  else if (r.kind == Verdict::PASS) {
+    stats().hit("history_S_origin=" + w.at(i).origin.substr(0, 1)); stats().hit("history_B_origin=" + w.at(j).origin.substr(0, 1));
+    MUri s = m_split(st), b = m_split(bt);
+    if (s.hasScheme && b.hasScheme && s.scheme == b.scheme && s.hasAuth == b.hasAuth && (!s.hasAuth || s.host == b.host)) *nt = true;
+  }
+  return r;
+}
+
 static Verdict check(const Fields &f) {
+  if (f.has("n")) {
+    for (auto &op : ops_from_fields(f)) if (op.kind == 'P' && !uriref_matcher().matches(op.text)) return Verdict::discard();
+    std::string d, d2; bool nt = false;
+    Verdict v = check_history<Api<char>>(f, &d, &nt);
+    if (v.kind != Verdict::PASS) return v;
+    if (!intact_error().empty()) return Verdict::fail("A: " + d + ": " + intact_error());
+    v = check_history<Api<wchar_t>>(f, &d2, &nt);
+    if (v.kind != Verdict::PASS) return v;
+    if (!intact_error().empty()) return Verdict::fail("W: " + d2 + ": " + intact_error());
+    stats().hit("arm=operands_from_history");
+    if (nt) stats().nontrivial(f.text(), d);
+    return Verdict::pass();
+  }
   if (!uriref_matcher().matches(f.get("src")) || !uriref_matcher().matches(f.get("base"))) return Verdict::discard();
   bool rel = false;
   Verdict v = check_type<Api<char>>(f, &rel);
